@@ -143,8 +143,8 @@ Print Assumptions C04_from_iter_is_in_input_order.
 
 (** the same for FuturesOrdered (unbounded): the indices 0 .. n-1 are spread over the groups *)
 Theorem C04_unbounded_from_iter_is_in_input_order :
-  forall (P : params), params_ok P -> forall (l : list child) (w : world),
-  winv (cnt []) None w -> Z.of_nat (length l) < msb P -> fo_oinv P (fst (fo_from_list P l w)).
+  forall (P : params), params_ok P -> forall (hint : nat) (l : list child) (w : world),
+  winv (cnt []) None w -> Z.of_nat (length l) < msb P -> fo_oinv P (fst (fo_from_list P hint l w)).
 Proof. exact fo_from_list_order. Qed.
 Print Assumptions C04_unbounded_from_iter_is_in_input_order.
 
